@@ -10,7 +10,7 @@ iv_timer_.list_expired, ...) and call *roles* computed from the call graph (a ca
 that may run user callbacks, may run task handlers, enters the kernel wait).  No
 static helper name, local variable name, loop shape or expression text is matched.
 """
-from ..core import AnalysisBroken, Inliner, canon, strip, lvalue_steps, norm_cond, forward, last_member
+from ..core import AnalysisBroken, Inliner, canon, strip, lvalue_steps, norm_cond, forward, last_member, subst
 from ..analyses import is_fail, path_to, describe
 from .. import roles
 from . import h07
@@ -522,17 +522,20 @@ def try_rollback(ctx):
 MAIN_FACTS = h07.Facts({QUIT: (0, 1), NUMOBJS: (0, 1, 2, 5)})
 
 
-def _main_model(prog):
+def _main_model(prog, opened=frozenset()):
     """(iv_main, iv_main with its file-local / static helpers inlined, {id(call event): roles}).  Roles of a call, from
     the call graph (h07.Effects): 'dispatch' = may run a user callback or hook or store to quit / numobjs (so: may
     register or unregister anything, since every registration is counted -- R-C07b), 'tasks' = runs task handlers,
-    'block' = reaches the poll method's `poll` slot (the kernel wait)."""
-    cached = prog.__dict__.get('_c07_main')
-    if cached is not None:
-        return cached
+    'block' = reaches the poll method's `poll` slot (the kernel wait).
+    opened: qualified names of further (non-local) functions to inline as well (R-C07g: a waiting callee that takes no
+    deadline computes it itself)."""
+    cache = prog.__dict__.setdefault('_c07_main', {})
+    opened = frozenset(opened)
+    if opened in cache:
+        return cache[opened]
     f = prog.fn('iv_main')
-    eff = h07.Effects(prog, watch=[QUIT, NUMOBJS])
-    g = h07.inline(prog, f, stop=lambda t: not (t.static or t.file == f.file))
+    eff = cache[frozenset()][3] if frozenset() in cache else h07.Effects(prog, watch=[QUIT, NUMOBJS])
+    g = h07.inline(prog, f, stop=lambda t: not (t.static or t.file == f.file or t.q in opened))
     cls = {}
     for e in g.events():
         if e['ev'] == 'call':
@@ -547,8 +550,8 @@ def _main_model(prog):
                 c.add('tasks')
             if c:
                 cls[id(e)] = c
-    prog.__dict__['_c07_main'] = (f, g, cls, eff)
-    return prog.__dict__['_c07_main']
+    cache[opened] = (f, g, cls, eff)
+    return cache[opened]
 
 
 def check_main(ctx, prog, covered=None):
@@ -750,17 +753,47 @@ def check_deadline(ctx, prog):
     At every call that enters the kernel wait the deadline argument (the time-value pointer parameter of the callee) is
     judged in every state: zero time value / soonest-timer deadline (never NULL with a timer possibly registered, never
     anything else); fresh; not zero => no task pending; zero => a task pending."""
-    f, g, cls, eff = _main_model(prog)
+    def target_in(g_, e_or_x, owner):
+        u = prog.unit_of(owner) if owner is not None else None
+        n = e_or_x.get('callee')
+        return (prog.resolve(u, n) if u else prog.funcs.get(n)) if n else None
+
+    def is_deadline_param(p_):
+        return bool(p_.get('ptr')) and p_.get('record') == 'timespec'
+
+    # The deadline is judged where it is handed over as a deadline: at the waiting call whose callee takes a time-value
+    # pointer.  A waiting callee that takes none determines the deadline itself: it is then part of the model (inlined
+    # with its own static helpers), and the waiting calls inside it are judged -- down to the poll method's slot.
+    opened = set()
+    for _round in range(6):
+        f, g, cls, eff = _main_model(prog, opened)
+        more = set()
+        for e in g.events():
+            if 'block' in cls.get(id(e), ()) and 'callee' in e:
+                t = target_in(g, e, h07.origin(prog, g, e))
+                if t is not None and t.blocks and t.q not in opened and not any(is_deadline_param(p_) for p_ in t.params):
+                    more.add(t.q)
+        if not more:
+            break
+        opened |= more
     facts = h07.LoopFacts({NUM_TIMERS: (0, 1, 2, 5)}, {TASKS: PENDING})
     facts.prog = prog
     blocks = [e for e in g.events() if 'block' in cls.get(id(e), ())]
     if not blocks:
         raise AnalysisBroken('iv_main: no call that enters the poll method\'s kernel wait')
+    REQ = ('req',)
 
     def target(e_or_x, owner):
-        u = prog.unit_of(owner) if owner is not None else None
-        n = e_or_x.get('callee')
-        return (prog.resolve(u, n) if u else prog.funcs.get(n)) if n else None
+        return target_in(g, e_or_x, owner)
+
+    def callee_params(e, owner, i):
+        """the i-th parameter of every function the call may enter (direct callee, or the poll-method slot's targets)"""
+        if 'callee' in e:
+            ts = [target(e, owner)]
+        else:
+            sk = h07.site_kind(g, e)
+            ts = list(prog.slot_targets(sk[1])) if sk and sk[0] == 'method' else [None]
+        return [t.params[i] if t is not None and i < len(t.params) else None for t in ts] or [None]
 
     def is_local(v):
         return isinstance(v, dict) and v.get('k') == 'var' and v.get('vk') in ('local', 'param')
@@ -803,6 +836,65 @@ def check_deadline(ctx, prog):
             a, b = pv(x['a'], env, owner), pv(x['b'], env, owner)
             return a if a == b else None
         return None
+
+    def value_at_return(call, owner):
+        """What a call of a repo function that is not part of the model evaluates to, as an expression over the state
+        right after the call: the function's one `return <side-effect free expression over list emptiness tests and its
+        parameters>` (whatever the function did before -- the call event itself has been executed by then), with the
+        arguments substituted; None when the function is not of that form or reassigns a parameter."""
+        t = target(call, owner)
+        if t is None or not t.blocks or len(t.params) != len(call.get('args', [])):
+            return None
+        cache = prog.__dict__.setdefault('_c07_retval', {})
+        if t.q not in cache:
+            body = t.pristine()
+            rets = [e for e in body.events() if e['ev'] == 'ret']
+            pnames = {p_['name'] for p_ in t.params}
+            ok = len(rets) == 1 and 'value' in rets[0] and facts.reads_fact(rets[0]['value'])
+            if ok:
+                for y in h07.walk(rets[0]['value']):
+                    if (y.get('k') == 'call' and not facts.pure_call(y)) or \
+                            y.get('k') in ('assign', 'incdec', 'stmtexpr', 'other', 'deep', 'va_arg', 'init', 'compound'):
+                        ok = False
+                    if y.get('k') == 'var' and y.get('vk') not in ('param',):
+                        ok = False                  # a local of the callee: its value is not known here
+                for e in body.events():
+                    if e['ev'] == 'store':
+                        l = h07.strip_cast(e['lhs'])
+                        if isinstance(l, dict) and l.get('k') == 'var' and l.get('name') in pnames:
+                            ok = False
+                    for y in h07.walk(e):
+                        if isinstance(y, dict) and y.get('k') == 'addr' and isinstance(y.get('e'), dict) \
+                                and y['e'].get('k') == 'var' and y['e'].get('name') in pnames:
+                            ok = False
+            cache[t.q] = rets[0]['value'] if ok else None
+        v = cache[t.q]
+        if v is None:
+            return None
+        byname = {p_['name']: a for p_, a in zip(t.params, call['args'])}
+
+        def sub(nd):
+            if nd.get('k') == 'load' and isinstance(nd.get('e'), dict) and nd['e'].get('k') == 'var' and nd['e'].get('vk') == 'param' \
+                    and nd['e']['name'] in byname:
+                return byname[nd['e']['name']]
+            return None
+        return subst(v, sub)
+
+    def post(x, env, owner):
+        """x with its one call of a function outside the model replaced by what that call returned (value_at_return): only
+        when it is the only such call in x, so that nothing can have changed the state between the callee's return and
+        the evaluation of x (the call event directly precedes it)."""
+        if not isinstance(x, dict):
+            return x
+        calls = [y for y in h07.walk(x) if isinstance(y, dict) and y.get('k') == 'call' and not facts.pure_call(y)
+                 and not (y.get('loc') and env.get(('inl', y['loc'])) is not None)]
+        if len(calls) != 1 or 'callee' not in calls[0]:
+            return x
+        r = value_at_return(calls[0], owner)
+        if r is None:
+            return x
+        c0 = calls[0]
+        return subst(x, lambda nd: r if nd is c0 else None)
 
     def forget(env, n):
         for k_ in [k_ for k_ in env if (k_[0] in ('ptr', 'var', 'val', 'alias', 'lst') and k_[1] == n) or (k_[0] == 'ts' and k_[1] == n)
@@ -862,6 +954,17 @@ def check_deadline(ctx, prog):
         if ev == 'enter':
             if e.get('inst') is not None:
                 env[('inl', e['loc'])] = e['inst']
+        elif ev == 'load':
+            # a deadline value (a pointer local that holds one) is read: compared, looked into, or about to be handed to
+            # a call.  The deadlines consulted since the last dispatch stand for the requested deadline at a wait that
+            # itself gets none (see the judgement below).
+            seen = set(env.get(REQ, ()))
+            for x in h07.walk(e.get('e')):
+                if isinstance(x, dict) and x.get('k') == 'var' and x.get('vk') in ('local', 'param') and x.get('ptr') \
+                        and x.get('record') == 'timespec' and ('ptr', x['name']) in env:
+                    seen.add(env[('ptr', x['name'])])
+            if seen != set(env.get(REQ, ())):
+                env[REQ] = tuple(sorted(seen))
         elif ev == 'decl':
             forget(env, e['name'])
             if e.get('record') == 'timespec' and not e.get('ptr') and e.get('init') is not None and _zero_init(e['init']):
@@ -875,14 +978,15 @@ def check_deadline(ctx, prog):
                 if not plain:
                     forget(env, ls['name'])
                     return [env]
-                r = strip(e['rhs'])
+                rhs = post(e['rhs'], env, owner)
+                r = strip(rhs)
                 if isinstance(r, dict) and r.get('k') == 'cond' and h07.truth(facts, env, r['c']) == '?':
                     out = []
                     for pol, br in ((True, r['a']), (False, r['b'])):
                         for e1 in h07.assume(facts, dict(env), r['c'], pol):
                             out.append(assign(e1, ls['name'], br, owner))
                     return out
-                assign(env, ls['name'], e['rhs'], owner)
+                assign(env, ls['name'], rhs, owner)
                 return [env]
             o = time_obj_of(ls, env)
             if o is not None:
@@ -927,16 +1031,15 @@ def check_deadline(ctx, prog):
                     # a pointer to a time value of iv_main's own handed to other code: it may be written through it
                     p = pv(a, env, owner)
                     if isinstance(p, str) and p.startswith('zero:'):
-                        t = target(e, owner)
-                        par = t.params[i] if t is not None and i < len(t.params) else None
+                        pars = callee_params(e, owner, i)
                         if zeroing and i == 0:
                             for fl in TS_FIELDS:
                                 env[('ts', p[5:], fl)] = 'z'
-                        elif par is None or 'const' not in (par.get('type') or '').split('*')[0].split():
+                        elif any(par is None or 'const' not in (par.get('type') or '').split('*')[0].split() for par in pars):
                             for k_ in [k_ for k_ in env if k_[0] == 'ts' and k_[1] == p[5:]]:
                                 env.pop(k_)
             if 'dispatch' in c:
-                for k_ in [k_ for k_ in env if k_ in (PENDING, NUM_TIMERS) or k_[0] == 'alias']:
+                for k_ in [k_ for k_ in env if k_ in (PENDING, NUM_TIMERS, REQ) or k_[0] == 'alias']:
                     env.pop(k_)
                 for k_ in [k_ for k_ in env if k_[0] == 'ptr' and env[k_] == 'soon']:
                     env[k_] = 'stale'
@@ -961,8 +1064,9 @@ def check_deadline(ctx, prog):
                 or blk.term.get('cls') in ('SwitchStmt', 'MethodDispatch'):
             return S
         out = set()
+        owner = h07.origin(prog, g, blk.events[-1]) if blk.events else f
         for fk in S:
-            for env in h07.assume(facts, dict(fk), blk.term['cond'], si == 0):
+            for env in h07.assume(facts, dict(fk), post(blk.term['cond'], dict(fk), owner), si == 0):
                 out.add(tuple(sorted(env.items())))
         return frozenset(out) if out else None
 
@@ -976,7 +1080,7 @@ def check_deadline(ctx, prog):
         idx = set()
         for t in ts:
             if t is not None:
-                idx.add(tuple(i for i, p_ in enumerate(t.params) if p_.get('ptr') and p_.get('record') == 'timespec'))
+                idx.add(tuple(i for i, p_ in enumerate(t.params) if is_deadline_param(p_)))
         if len(idx) != 1 or len(next(iter(idx))) != 1 or next(iter(idx))[0] >= len(e.get('args', [])):
             raise AnalysisBroken('iv_main: the deadline argument of %s (its one time-value pointer parameter) is not identified' % describe(e))
         return next(iter(idx))[0]
@@ -992,17 +1096,25 @@ def check_deadline(ctx, prog):
             arg = e['args'][deadline_index(e, owner)]
             for fk in ev_in.get((e['_b'], e['_i']), frozenset()):
                 env = dict(fk)
-                v = pv(arg, env, owner)
-                if v == 'null' and env.get(NUM_TIMERS) == 'z':
-                    v = 'soon'          # no deadline with no timer registered (found so after the last dispatch) is what the
+                v0 = pv(arg, env, owner)
+                vs = [v0]
+                if v0 == 'null' and env.get(NUM_TIMERS) != 'z' and env.get(REQ):
+                    # The wait gets no deadline on a path that has consulted (compared, looked into, handed to the poll
+                    # method) a deadline since the last dispatch: that one is the requested deadline and is judged here;
+                    # whether waiting without it is justified (a kernel timer armed for it) is R-C07f.  Without any
+                    # consulted deadline NULL is judged as it stands.
+                    vs = list(env[REQ])
+                for v in vs:
+                    if v == 'null' and env.get(NUM_TIMERS) == 'z':
+                        v = 'soon'      # no deadline with no timer registered (found so after the last dispatch) is what the
                                         # timer-deadline function answers for an empty heap
-                zero = v == 'czero' or (isinstance(v, str) and v.startswith('zero:')
-                                        and all(env.get(('ts', v[5:], fl)) == 'z' for fl in TS_FIELDS))
-                if isinstance(v, str) and v.startswith('zero:') and not zero:
-                    unset = [fl for fl in TS_FIELDS if env.get(('ts', v[5:], fl)) != 'z']
-                    rows.append(('local time value `%s` whose %s is not 0 on this path' % (v[5:], '/'.join(unset)), False, env.get(PENDING, '?'), v))
-                else:
-                    rows.append((show(v), zero, env.get(PENDING, '?'), v))
+                    zero = v == 'czero' or (isinstance(v, str) and v.startswith('zero:')
+                                            and all(env.get(('ts', v[5:], fl)) == 'z' for fl in TS_FIELDS))
+                    if isinstance(v, str) and v.startswith('zero:') and not zero:
+                        unset = [fl for fl in TS_FIELDS if env.get(('ts', v[5:], fl)) != 'z']
+                        rows.append(('local time value `%s` whose %s is not 0 on this path' % (v[5:], '/'.join(unset)), False, env.get(PENDING, '?'), v))
+                    else:
+                        rows.append((show(v), zero, env.get(PENDING, '?'), v))
         if not rows:
             raise AnalysisBroken('iv_main: the kernel wait %s is not reachable' % describe(evs[0]))
         what = describe(evs[0])
